@@ -153,13 +153,25 @@ def alter_value(v):
     return ("PY", alter_py(v[1]))
 
 
+def swap_kind(v):
+    """The same URI as the other kind of value: qualified name <-> xsd:anyURI."""
+    if v[0] == "QN" and v[1][0] == "qn":
+        return ("PY", Identifier(v[1][2] + v[1][3]))
+    if v[0] == "PY" and type(v[1]) is Identifier:
+        u = v[1].uri
+        cut = max(u.rfind("/"), u.rfind("#"), u.rfind(":")) + 1
+        if 0 < cut < len(u):
+            return ("QN", ("qn", "sw", u[:cut], u[cut:]))
+    return None
+
+
 def apply_edit(cap, edit):
     """Apply exactly one edit.  Returns a short description, or None if not applicable."""
     kind, k = edit[0], edit[1]
     conts = [cap["records"]] + [b["records"] for b in cap["bundles"]]
     nonempty = [c for c in conts if c]
     if kind in ("alter_value", "add_attr", "remove_attr", "alter_id", "toggle_id", "remove_record",
-                "swap_type", "alter_formal") and not nonempty:
+                "swap_type", "alter_formal", "swap_value_kind") and not nonempty:
         return None
     if kind == "add_record":
         c = conts[k % len(conts)]
@@ -214,6 +226,18 @@ def apply_edit(cap, edit):
                 for a, v in r["attrs"]
             ]
         return "swap_type"
+    if kind == "swap_value_kind":
+        for c2 in nonempty[k % len(nonempty):] + nonempty[:k % len(nonempty)]:
+            for r2 in c2:
+                formal2 = {a.uri for a in PROV_REC_CLS[r2["type"]].FORMAL_ATTRIBUTES}
+                for i2, (a2, v2) in enumerate(r2["attrs"]):
+                    if a2[0] == "qn" and a2[2] + a2[3] in formal2:
+                        continue
+                    nv = swap_kind(v2)
+                    if nv is not None:
+                        r2["attrs"][i2] = (a2, nv)
+                        return "swap_value_kind"
+        return None
     if kind == "add_attr":
         r["attrs"].append((("qn", "ed", "http://edit.example/", "added"), ("PY", "new%d" % k)))
         return "add_attr"
@@ -237,7 +261,7 @@ def apply_edit(cap, edit):
     return kind
 
 
-EDIT_KINDS = ["alter_value", "alter_formal", "add_attr", "remove_attr", "alter_id", "toggle_id",
+EDIT_KINDS = ["swap_value_kind", "alter_value", "alter_formal", "add_attr", "remove_attr", "alter_id", "toggle_id",
               "remove_record", "add_record", "add_bundle", "remove_bundle", "add_member",
               "remove_member", "swap_type"]
 
